@@ -95,7 +95,7 @@ func runC03(c *Ctx) {
 	c.Guard(r3, sr, "prefix table insert", `^mapupdate:%d\.pfxProcRegMap\[%msg\.Procedure\]=new\(router\.registration\)$`, 1, clause("match == prefix", T(isPfx)))
 	c.Guard(r3, sr, "wildcard table insert", `^mapupdate:%d\.wcProcRegMap\[%msg\.Procedure\]=new\(router\.registration\)$`, 1, clause("match == wildcard", T(isWc)))
 	c.Guard(r3, sr, "exact table insert", `^mapupdate:%d\.procRegMap\[%msg\.Procedure\]=new\(router\.registration\)$`, 1, clause("match != prefix", F(isPfx)), clause("match != wildcard", F(isWc)))
-	newReg := clause("no existing registration", T(`^\(`+regPhi+` == nil\)$`))
+	newReg := clause("no existing registration", T(`^\((`+regPhi+`|%d\.(pfxP|wcP|p)rocRegMap\[%msg\.Procedure\]) == nil\)$`))
 	c.Guard(r3, sr, "new registration id", `^call:wamp\.\(\*IDGen\)\.Next\(%d\.idGen\)$`, 1, newReg)
 	c.Fields(r3, sr, "REGISTERED literal", "wamp.Registered", nil, map[string]string{
 		"Request": `^%msg\.Request$`, "Registration": `^phi\(call:wamp\.\(\*IDGen\)\.Next\(%d\.idGen\)\|` + regPhi + `\.id\)$`}, 1)
@@ -202,7 +202,38 @@ func runC03(c *Ctx) {
 		Stop: `^call:builtin:delete\(%d\.(pfxProcRegMap|wcProcRegMap|procRegMap), `, Cut: []ir.Clause{
 			clause("callees remain", F(`^\(call:builtin:len\(`+dr+`\.callees\) == 0\)$`)), clause("unknown registration", F(`^%d\.registrations\[%regID\],ok#1$`))},
 		Target: "EXIT", Want: false})
-	c.R.Floor(r8, 11)
+	// order-preserving removal (first/last/round-robin selection depend on the order of callees)
+	if fn := c.Fn(r8, dc); fn != nil {
+		pat := re(`^store:` + dr + `\.&callees=call:builtin:append\(` + dr + `\.callees\[:(.+)\], ` + dr + `\.callees\[\((.+) \+ 1\):\]\)$`)
+		n := 0
+		for _, in := range matches(fn, `^store:`+dr+`\.&callees=`) {
+			d := ir.InstrDesc(in)
+			if d == "store:"+strings.ReplaceAll(strings.ReplaceAll(dr, `\`, ""), "", "")+".&callees=nil" || strings.HasSuffix(d, ".&callees=nil") {
+				continue
+			}
+			n++
+			m := pat.FindStringSubmatch(d)
+			c.R.Check(m != nil && m[1] == m[2], r8, dc, "callee removed preserving the order of the others", c.pos(in),
+				"callees is rewritten as "+d+" rather than append(callees[:i], callees[i+1:]...)")
+		}
+		c.R.Check(n >= 1, r8, dc, "order-preserving removal present", c.P.FuncPos(fn), "no append-based removal found")
+	}
+	c.R.Floor(r8, 13)
+
+	// R9: chunks of one progressive call stay on one invocation
+	const r9 = "C03.R9 a progressive call keeps its invocation until the final chunk"
+	syd := sy + "$1"
+	for _, del := range []string{
+		`^call:builtin:delete\(\^d\.invocations, \^invkReqID\)$`,
+		`^call:builtin:delete\(\^d\.invocationByCall, \^callID\)$`,
+		`^call:builtin:delete\(\^d\.calls, \^callID\)$`,
+	} {
+		c.Guard(r9, syd, "cleanup "+del, del, 1, clause("caller's progressive call is not in progress any more", F(`^\^invk\.inProgress$`)))
+	}
+	c.Has(r9, sc, "continuation chunk updates the in-progress mark of the stored invocation",
+		`^store:%d\.invocations\[%d\.invocationByCall\[`+dCallKey+`\],ok#0\]\.&inProgress=%msg\.Options\["progress"\]\.\(bool\),ok#0$`, 1)
+	c.Fields(r9, sc, "invocation literal records the in-progress mark", "router.invocation", nil, map[string]string{"inProgress": `^%msg\.Options\["progress"\]\.\(bool\),ok#0$`}, 1)
+	c.R.Floor(r9, 5)
 }
 
 // policyConsts collects the string constants c compared for equality in atoms
